@@ -73,6 +73,9 @@ func c15Run(c *core.Ctx) {
 	bounds := []int64{0, ms, sec, 59999 * ms, hour, 12 * hour, 24 * hour, 2 * sec, 3 * sec, 4 * sec, 5 * sec}
 	if c.Tier == core.Thorough {
 		bounds = append(bounds, 1, 999*ms, 1500*ms, 23*hour+59*60*sec+59999*ms, 10*hour-1)
+		for k := int64(1); k <= 24; k++ {
+			bounds = append(bounds, k*hour-ms, k*3599*sec+k*7*ms+k) // around every hour mark and at irregular instants
+		}
 	}
 	var cues []cueShape
 	for _, s := range bounds {
@@ -187,7 +190,7 @@ func init() {
 		Rule: "states = cue lists with boundaries from a fixed set in [0,24h]; transitions = the real ApplyLinearCorrection for every reference quadruple of the scope, each boundary compared with the exact big-rational value of d1+(t-a1)(d2-d1)/(a2-a1) to within 1us, plus length scaling (+-2us), order preservation and untouched content; non-trivial = the map is not the identity",
 		Scope: map[core.Tier]string{
 			core.Quick:    "66 cues over boundaries {0,1ms,1s,2s..5s,59.999s,1h,12h,24h} (1-3 cues per list) x 672 quadruples: slopes {1/2,1,3/2,2,25/23.976,23.976/25,30/29.97} x a1 in {0,1s,10min,1h} x span scales {1ms,1s,150s} x offsets {0,+-1s,+1h} x both orders of the reference points",
-			core.Thorough: "plus boundaries 1ns, 999ms, 1.5s, 23:59:59.999, 10h-1ns",
+			core.Thorough: "plus boundaries 1ns, 999ms, 1.5s, 23:59:59.999, 10h-1ns, k*1h-1ms and an irregular instant per hour (k=1..24): all cues over 64 boundaries",
 		},
 		Assumptions: []string{"Go toolchain and standard library, math/big"},
 		Plain:       c15Run, Replay: c15Replay,
